@@ -275,6 +275,61 @@ fn case_included(t: &mut Tape, st: &mut Stats) -> Verdict {
     Verdict::Pass(Some(fp(&(&rendered.main, &rendered.lib))))
 }
 
+
+/// (two-runs) the error mode and the last error live in the context: a second script run on the context that a first
+/// run returned (however the first run ended - last line, `exit`, `exit 0`) sees them.
+fn case_two_runs(t: &mut Tape, st: &mut Stats) -> Verdict {
+    let mode_on = t.flip();
+    let first_error = if !mode_on && t.flip() { Some(*t.pick_ref(&["first", "earlier problem", "x y"])) } else { None };
+    let ending = *t.pick_ref(&["", "exit\n", "exit 0\n", "exit 0\nemit never\n", "exit\nemit never\n"]);
+    let mut run1 = String::from("a = set 1\n");
+    if mode_on {
+        run1.push_str(&format!("exit_on_error {}\n", t.pick(&["true", "1", "yes", "TRUE"])));
+    } else if t.flip() {
+        run1.push_str(&format!("exit_on_error {}\n", t.pick(&["false", "0", "no"])));
+    }
+    if let Some(m) = first_error {
+        run1.push_str(&format!("e1 = trigger_error \"{}\"\n", m));
+    }
+    run1.push_str(ending);
+    let second_msg = *t.pick_ref(&["second", "later problem"]);
+    let run2 = format!("m0 = get_last_error\nemit m0 ${{m0}}\ne = trigger_error \"{}\"\nemit after ${{e}}\nm = get_last_error\nemit m ${{m}}\n", second_msg);
+    st.class(if ending.is_empty() { "first-run-reaches-its-last-line" } else { "first-run-ends-with-exit" });
+    hz_reset();
+    let o1 = run_text(&run1, sdk_context(), 5_000, None);
+    let d = |what: &str, extra: serde_json::Value| json!({"first_script": run1, "second_script": run2, "mismatch": what, "detail": extra});
+    let ctx = match o1.result {
+        Ok(c) => c,
+        Err(e) => return fail("C10/two-runs/first-run-failed", d("the first run must succeed", json!(format!("{:?}", e)))),
+    };
+    hz_reset();
+    let o2 = run_text(&run2, ctx, 5_000, None);
+    let trace: Vec<Vec<String>> = with_hz(|h| h.trace.iter().filter(|e| e.cmd == "emit").map(|e| e.args.clone()).collect());
+    // no error so far: the variable stays undefined and the written argument ${m0} is received as an empty one
+    let m0: Vec<String> = vec!["m0".into(), first_error.unwrap_or("").to_string()];
+    if trace.first() != Some(&m0) {
+        return fail("C10/two-runs/last-error-of-the-first-run", d("get_last_error at the start of the second run", json!({"expected": m0, "got": trace.first()})));
+    }
+    if mode_on {
+        match &o2.result {
+            Err(ScriptError::Runtime(msg, Some(meta))) if msg == second_msg && meta.line == Some(3) && trace.len() == 1 => {}
+            other => {
+                let r = match other {
+                    Ok(_) => "Ok".to_string(),
+                    Err(e) => format!("{:?}", e),
+                };
+                return fail("C10/two-runs/exit_on_error-mode-not-kept", d("exit_on_error was turned on in the first run: the error of the second run must end it", json!({"result": r, "emits": trace})));
+            }
+        }
+    } else {
+        let want = vec![m0.clone(), vec!["after".to_string(), "false".to_string()], vec!["m".to_string(), second_msg.to_string()]];
+        if o2.result.is_err() || trace != want {
+            return fail("C10/two-runs/survivable-error", d("mode off: the second run goes on after its error", json!({"expected": want, "got": trace, "ok": o2.result.is_ok()})));
+        }
+    }
+    Verdict::Pass(Some(fp(&(&run1, &run2))))
+}
+
 fn case_q(t: &mut Tape, st: &mut Stats) -> Verdict {
     case_with(t, st, 40)
 }
@@ -285,7 +340,7 @@ fn case_t(t: &mut Tape, st: &mut Stats) -> Verdict {
 pub fn property() -> Property {
     Property {
         id: "C10",
-        rule: "C04/C05 programs with failing commands planted at arbitrary statement positions (top level, function bodies, loop bodies, branches): trigger_error with plain and syntax-bearing messages (${..}, %, #) and library commands that fail on their own (array_get / array_pop / array_length on a missing handle, substring out of range, map_get and calc without arguments, the script-implemented array_join), with and without output variable, several in sequence, exit_on_error toggled mid-script (the state written as any truthy / falsy spelling), set_error statements in between (they replace the stored error and nothing else), run from text and from file; (included) the same programs with the function definitions in an included file, the including script being a file or a text without a source of its own. Each failing line is followed by get_last_error / get_last_error_line / get_last_error_source reads and an emit. Oracle: reference interpreter (output variable 'false', latest error's message/line/source, continue with the next instruction; once exit_on_error is on the first error ends the run with Err(message, line, source)); library messages are taken from a direct call of the same command. Non-trivial: >= 2 errors or an error with function calls around; distinct by (script, mode)",
+        rule: "C04/C05 programs with failing commands planted at arbitrary statement positions (top level, function bodies, loop bodies, branches): trigger_error with plain and syntax-bearing messages (${..}, %, #) and library commands that fail on their own (array_get / array_pop / array_length on a missing handle, substring out of range, map_get and calc without arguments, the script-implemented array_join), with and without output variable, several in sequence, exit_on_error toggled mid-script (the state written as any truthy / falsy spelling), set_error statements in between (they replace the stored error and nothing else), run from text and from file; (included) the same programs with the function definitions in an included file, the including script being a file or a text without a source of its own. (two-runs) a second script run on the context returned by a first run - which turned exit_on_error on or off and / or recorded an error, and ended at its last line or by exit / exit 0 - must see the mode and the last error of the first. Each failing line is followed by get_last_error / get_last_error_line / get_last_error_source reads and an emit. Oracle: reference interpreter (output variable 'false', latest error's message/line/source, continue with the next instruction; once exit_on_error is on the first error ends the run with Err(message, line, source)); library messages are taken from a direct call of the same command. Non-trivial: >= 2 errors or an error with function calls around; distinct by (script, mode)",
         assumptions: &[
             "failing commands are not planted in condition position, and programs that reach one inside a function called in condition position are discarded",
             "expected message of a library error = the message of a direct call of the same command on a fresh context",
@@ -308,6 +363,15 @@ pub fn property() -> Property {
                 },
                 case: case_included,
                 min_classes: &[("error-inside-included-file", 1000), ("error-in-including-file-after-directive", 1000), ("error-in-text-after-error-in-included-file", 100)],
+            },
+            Section {
+                name: "two-runs",
+                plan: |t| match t {
+                    Tier::Quick => Plan::Random { cases: 4_000, max_len: 30 },
+                    Tier::Thorough => Plan::Random { cases: 40_000, max_len: 30 },
+                },
+                case: case_two_runs,
+                min_classes: &[("first-run-ends-with-exit", 1000), ("first-run-reaches-its-last-line", 300)],
             },
             Section {
                 name: "large-programs",
